@@ -6,6 +6,9 @@ package main
 import (
 	"fmt"
 	"go/types"
+	"html/template"
+	"net/url"
+	"regexp"
 	"strconv"
 	"strings"
 
@@ -21,15 +24,17 @@ const repoStack = "github.com/maruel/panicparse/v2/stack."
 
 func init() {
 	intrinsics = map[string]intrinsic{
-		"errors.New":         func(e *Exec, fn *ssa.Function, a []Value) Value { return e.newError(e.where()) },
-		"fmt.Errorf":         func(e *Exec, fn *ssa.Function, a []Value) Value { return e.newError(e.where()) },
-		"fmt.Sprintf":        inSprintf,
-		"sort.Ints":          inSortInts,
-		"sort.Sort":          inSortSort,
-		"sort.SliceStable":   inSortSliceStable,
-		"sort.Slice":         inSortSliceStable,
-		"sort.Strings":       inSortStrings,
-		"regexp.MustCompile": func(e *Exec, fn *ssa.Function, a []Value) Value { return &Pointer{Slot: valp(&RegexV{Pattern: e.goString(a[0])}), Obj: &Object{Kind: "regexp"}} },
+		"errors.New":       func(e *Exec, fn *ssa.Function, a []Value) Value { return e.newError(e.where()) },
+		"fmt.Errorf":       func(e *Exec, fn *ssa.Function, a []Value) Value { return e.newError(e.where()) },
+		"fmt.Sprintf":      inSprintf,
+		"sort.Ints":        inSortInts,
+		"sort.Sort":        inSortSort,
+		"sort.SliceStable": inSortSliceStable,
+		"sort.Slice":       inSortSliceStable,
+		"sort.Strings":     inSortStrings,
+		"regexp.MustCompile": func(e *Exec, fn *ssa.Function, a []Value) Value {
+			return &Pointer{Slot: valp(&RegexV{Pattern: e.goString(a[0])}), Obj: &Object{Kind: "regexp"}}
+		},
 
 		"(*regexp.Regexp).Match":              inRegexMatch,
 		"(*regexp.Regexp).MatchString":        inRegexMatch,
@@ -37,11 +42,26 @@ func init() {
 		"(*regexp.Regexp).FindStringSubmatch": inRegexFindSubmatch,
 		"strconv.ParseUint":                   inParseUint,
 		"(*sync.Pool).Get":                    inPoolGet,
-		"(*sync.Pool).Put":                    inPoolPut,
-		"net/url.QueryUnescape":               func(e *Exec, fn *ssa.Function, a []Value) Value { return e.urlUnescape(a[0].(*StringV), true) },
-		"net/url.PathUnescape":                func(e *Exec, fn *ssa.Function, a []Value) Value { return e.urlUnescape(a[0].(*StringV), false) },
-		"unicode/utf8.DecodeRuneInString":     inDecodeRune,
-		"unicode.ToUpper":                     inToUpper,
+		// concrete-argument summaries (the HTML helper functions): evaluated by the
+		// real library function; symbolic arguments are unsupported
+		"net/url.QueryEscape": func(e *Exec, fn *ssa.Function, a []Value) Value {
+			return e.constString(url.QueryEscape(e.goString(a[0])))
+		},
+		"html/template.HTMLEscapeString": func(e *Exec, fn *ssa.Function, a []Value) Value {
+			return e.constString(template.HTMLEscapeString(e.goString(a[0])))
+		},
+		"runtime.Version":            func(e *Exec, fn *ssa.Function, a []Value) Value { return e.constString("go1.23.5") },
+		"(*net/url.URL).EscapedPath": inURLEscapedPath,
+		"strings.SplitN":             inSplitN,
+		"(*regexp.Regexp).ReplaceAllString": func(e *Exec, fn *ssa.Function, a []Value) Value {
+			rx := (*a[0].(*Pointer).Slot).(*RegexV)
+			return e.constString(regexp.MustCompile(rx.Pattern).ReplaceAllString(e.goString(a[1]), e.goString(a[2])))
+		},
+		"(*sync.Pool).Put":                inPoolPut,
+		"net/url.QueryUnescape":           func(e *Exec, fn *ssa.Function, a []Value) Value { return e.urlUnescape(a[0].(*StringV), true) },
+		"net/url.PathUnescape":            func(e *Exec, fn *ssa.Function, a []Value) Value { return e.urlUnescape(a[0].(*StringV), false) },
+		"unicode/utf8.DecodeRuneInString": inDecodeRune,
+		"unicode.ToUpper":                 inToUpper,
 
 		"github.com/mgutz/ansi.ColorCode": func(e *Exec, fn *ssa.Function, a []Value) Value {
 			return e.constString("\x1b[" + e.goString(a[0]) + "m")
@@ -90,16 +110,20 @@ func init() {
 		"strings.LastIndexByte": func(e *Exec, fn *ssa.Function, a []Value) Value { return e.indexByte(e.win(a[0]), a[1].(*Term), true) },
 		"bytes.LastIndexByte":   func(e *Exec, fn *ssa.Function, a []Value) Value { return e.indexByte(e.win(a[0]), a[1].(*Term), true) },
 		"strings.TrimSuffix":    inTrimSuffix,
-		"strings.Contains":      func(e *Exec, fn *ssa.Function, a []Value) Value { return e.ctx.Not(e.ctx.Eq(e.indexOf(e.win(a[0]), e.win(a[1])), e.ctx.Int(-1))) },
-		"bytes.Contains":        func(e *Exec, fn *ssa.Function, a []Value) Value { return e.ctx.Not(e.ctx.Eq(e.indexOf(e.win(a[0]), e.win(a[1])), e.ctx.Int(-1))) },
-		"strings.Index":         func(e *Exec, fn *ssa.Function, a []Value) Value { return e.indexOf(e.win(a[0]), e.win(a[1])) },
-		"bytes.Index":           func(e *Exec, fn *ssa.Function, a []Value) Value { return e.indexOf(e.win(a[0]), e.win(a[1])) },
-		"strings.Join":          inJoin,
-		"strings.Count":         inCount,
-		"bytes.Split":           inSplit,
-		"strings.Split":         inSplit,
-		"bytes.TrimSpace":       inTrimSpace,
-		"strings.TrimSpace":     inTrimSpace,
+		"strings.Contains": func(e *Exec, fn *ssa.Function, a []Value) Value {
+			return e.ctx.Not(e.ctx.Eq(e.indexOf(e.win(a[0]), e.win(a[1])), e.ctx.Int(-1)))
+		},
+		"bytes.Contains": func(e *Exec, fn *ssa.Function, a []Value) Value {
+			return e.ctx.Not(e.ctx.Eq(e.indexOf(e.win(a[0]), e.win(a[1])), e.ctx.Int(-1)))
+		},
+		"strings.Index":     func(e *Exec, fn *ssa.Function, a []Value) Value { return e.indexOf(e.win(a[0]), e.win(a[1])) },
+		"bytes.Index":       func(e *Exec, fn *ssa.Function, a []Value) Value { return e.indexOf(e.win(a[0]), e.win(a[1])) },
+		"strings.Join":      inJoin,
+		"strings.Count":     inCount,
+		"bytes.Split":       inSplit,
+		"strings.Split":     inSplit,
+		"bytes.TrimSpace":   inTrimSpace,
+		"strings.TrimSpace": inTrimSpace,
 
 		// process environment: fixed, documented values
 		"runtime.GOROOT": func(e *Exec, fn *ssa.Function, a []Value) Value { return e.constString("/goroot") },
@@ -220,7 +244,9 @@ func init() {
 		"vOr":      func(e *Exec, fn *ssa.Function, a []Value) Value { return e.ctx.Or(a[0].(*Term), a[1].(*Term)) },
 		"vNot":     func(e *Exec, fn *ssa.Function, a []Value) Value { return e.ctx.Not(a[0].(*Term)) },
 		"vImplies": func(e *Exec, fn *ssa.Function, a []Value) Value { return e.ctx.Implies(a[0].(*Term), a[1].(*Term)) },
-		"vIte":     func(e *Exec, fn *ssa.Function, a []Value) Value { return e.ctx.Ite(a[0].(*Term), a[1].(*Term), a[2].(*Term)) },
+		"vIte": func(e *Exec, fn *ssa.Function, a []Value) Value {
+			return e.ctx.Ite(a[0].(*Term), a[1].(*Term), a[2].(*Term))
+		},
 		"vSharesMemory": func(e *Exec, fn *ssa.Function, a []Value) Value {
 			x, y := a[0].(*SliceV), a[1].(*SliceV)
 			return e.ctx.Bool(!isNil(x) && !isNil(y) && x.Arr == y.Arr)
@@ -237,7 +263,7 @@ func init() {
 			return nil
 		},
 		"vTempRoot": func(e *Exec, fn *ssa.Function, a []Value) Value { return e.constString("/vroot") },
-		"vNote": func(e *Exec, fn *ssa.Function, a []Value) Value { e.note("harness:" + e.goString(a[0])); return nil },
+		"vNote":     func(e *Exec, fn *ssa.Function, a []Value) Value { e.note("harness:" + e.goString(a[0])); return nil },
 	}
 }
 
@@ -1198,4 +1224,32 @@ func inPoolPut(e *Exec, fn *ssa.Function, a []Value) Value {
 	}
 	e.pools[key] = append(e.pools[key], a[1])
 	return nil
+}
+
+func inURLEscapedPath(e *Exec, fn *ssa.Function, a []Value) Value {
+	st := fn.Signature.Recv().Type().(*types.Pointer).Elem().Underlying().(*types.Struct)
+	sv := (*a[0].(*Pointer).Slot).(*StructV)
+	u := url.URL{}
+	for i := 0; i < st.NumFields(); i++ {
+		switch st.Field(i).Name() {
+		case "Path":
+			u.Path = e.goString(sv.Fields[i])
+		case "RawPath":
+			u.RawPath = e.goString(sv.Fields[i])
+		}
+	}
+	return e.constString(u.EscapedPath())
+}
+
+func inSplitN(e *Exec, fn *ssa.Function, a []Value) Value {
+	n := a[2].(*Term)
+	if !n.IsConst() {
+		panic(unsupported{"strings.SplitN with a symbolic count"})
+	}
+	parts := strings.SplitN(e.goString(a[0]), e.goString(a[1]), int(n.SVal()))
+	sl := e.newSlice(types.Typ[types.String], len(parts), len(parts), "strings.SplitN")
+	for i, p := range parts {
+		sl.Arr.Elems[i] = e.constString(p)
+	}
+	return sl
 }
